@@ -182,7 +182,8 @@ func (p *PluginContainer) cloneAndAppendMiddle(plugins ...Plugin) *PluginContain
 	oldRefreshTree := p.refreshTree
 	p.refreshTree = func() {
 		oldRefreshTree()
-		newPluginContainer.refresh()
+		// refresh the clone and everything cloned from it later
+		newPluginContainer.refreshTree()
 	}
 	return newPluginContainer
 }
